@@ -31,6 +31,8 @@ pub use allocator::PageNumber;
 
 #[cfg(feature = "verif-hooks")]
 pub(crate) use ops::overflow::verif_total_needed_pages;
+#[cfg(feature = "verif-hooks")]
+pub(crate) use ops::verif_branch;
 use index::Index;
 pub use iterator::BeatreeIterator;
 use leaf_cache::LeafCache;
